@@ -275,9 +275,9 @@ func (d *orcDriver) mutate(m *orcMsg, t *orcTx) string {
 		if p := first(); p != nil {
 			p.Ts = now + 6 + int64(d.rng.Intn(100))
 		}
-	case "ts-edge":
+	case "ts-edge": // around the +5 s limit, relative to floor and to ceil of a sub-second block time
 		if p := first(); p != nil {
-			p.Ts = now + 4 + int64(d.rng.Intn(3))
+			p.Ts = now + 4 + int64(d.rng.Intn(4))
 		}
 	case "ts-bad":
 		if p := first(); p != nil {
